@@ -54,6 +54,8 @@ type spec struct {
 	withReturn bool
 	// calls that amount to assignments to tracked variables: callee spelling -> (tracked Go spelling, argument index or -1, constant)
 	callAssign map[string][]callSet
+	// `a, b := f()` for these calls binds a, b to the given read-only Gallina names ("_" skipped)
+	multiDefine map[string][]string
 }
 
 type callSet struct {
@@ -133,8 +135,14 @@ func (s *spec) expr(e ast.Expr) string {
 		case token.REM:
 			return "(Nat.modulo " + a + " " + b + ")"
 		case token.EQL:
+			if b == "None" {
+				return "(negb " + a + ")" // x == nil for a pointer modelled as the boolean "is set"
+			}
 			return "(gen_eqb " + a + " " + b + ")"
 		case token.NEQ:
+			if b == "None" {
+				return a
+			}
 			return "(negb (gen_eqb " + a + " " + b + "))"
 		case token.LAND:
 			return "(" + a + " && " + b + ")"
@@ -191,6 +199,32 @@ func (s *spec) block(stmts []ast.Stmt, rest string) string {
 			}
 		}
 	case *ast.AssignStmt:
+		if len(x.Rhs) == 1 && len(x.Lhs) > 1 && x.Tok == token.DEFINE {
+			if names, ok := s.multiDefine[src(x.Rhs[0])]; ok && len(names) == len(x.Lhs) {
+				saved := map[string]string{}
+				had := map[string]bool{}
+				for i, l := range x.Lhs {
+					n := src(l)
+					if n == "_" {
+						continue
+					}
+					saved[n], had[n] = s.params[n], true
+					if _, ok := s.params[n]; !ok {
+						had[n] = false
+					}
+					s.params[n] = names[i]
+				}
+				body := s.block(tail, rest)
+				for n := range saved {
+					if had[n] {
+						s.params[n] = saved[n]
+					} else {
+						delete(s.params, n)
+					}
+				}
+				return body
+			}
+		}
 		if len(x.Lhs) == 1 && len(x.Rhs) == 1 && (x.Tok == token.ASSIGN || x.Tok == token.DEFINE) {
 			lhs := src(x.Lhs[0])
 			if s.ignoreLHS[lhs] {
@@ -223,6 +257,12 @@ func (s *spec) block(stmts []ast.Stmt, rest string) string {
 			return s.tuple()
 		}
 	case *ast.IfStmt:
+		if x.Init != nil {
+			// if init; cond { ... }: the init statement first (its names stay visible a little longer than in Go: harmless here)
+			y := *x
+			y.Init = nil
+			return s.block(append([]ast.Stmt{x.Init, &y}, tail...), rest)
+		}
 		if x.Init == nil {
 			c := s.expr(x.Cond)
 			if s.withReturn {
@@ -487,6 +527,60 @@ func main() {
 			}}
 		body := s.block(fd.Body.List, s.tuple())
 		return "Definition gen_handle_proxy_error (max_bytes timeout canceled draining : bool) : nat * bool :=\n  let status := 0 in let direct := false in\n  " + body + "."
+	})
+
+	// 4. the service's own ladder in front of the balancer: HTTPS redirect, TLS refusal, pause gate, forward
+	svcFiles := []*ast.File{}
+	if f, err := parser.ParseFile(fset, filepath.Join(dir, "service.go"), nil, parser.SkipObjectResolution); err == nil {
+		svcFiles = append(svcFiles, f)
+	}
+	r4 := &result{Name: "gen_should_redirect", Source: "internal/server/service.go: Service.shouldRedirectToHTTPS"}
+	results = append(results, r4)
+	translate(r4, func() string {
+		fd := method(svcFiles, "Service", "shouldRedirectToHTTPS")
+		if fd == nil || fd.Type.Params == nil || len(fd.Type.Params.List) != 1 || len(fd.Type.Params.List[0].Names) != 1 {
+			fail("method Service.shouldRedirectToHTTPS(r) not found")
+		}
+		req := fd.Type.Params.List[0].Names[0].Name
+		s := &spec{name: r4.Name, vars: []tvar{{"#unit", "u"}}, params: map[string]string{req + ".TLS": "is_tls"},
+			ignoreLHS: map[string]bool{}, ignoreCall: map[string]bool{}, consts: map[string]string{"nil": "None", "true": "true", "false": "false"},
+			withReturn: true, multiDefine: map[string][]string{"s.tlsSettings()": {"tls", "redir"}}}
+		if !endsWithReturn(fd.Body.List) {
+			fail("shouldRedirectToHTTPS does not end with a return")
+		}
+		return "Definition gen_should_redirect (tls redir is_tls : bool) : bool :=\n  let u := tt in snd " + s.block(fd.Body.List, "") + "."
+	})
+	r5 := &result{Name: "gen_service_ladder", Source: "internal/server/service.go: Service.serviceRequestWithTarget"}
+	results = append(results, r5)
+	translate(r5, func() string {
+		fd := method(svcFiles, "Service", "serviceRequestWithTarget")
+		if fd == nil || fd.Type.Params == nil {
+			fail("method Service.serviceRequestWithTarget not found")
+		}
+		names := []string{}
+		for _, f := range fd.Type.Params.List {
+			for _, n := range f.Names {
+				names = append(names, n.Name)
+			}
+		}
+		if len(names) != 2 {
+			fail("serviceRequestWithTarget: unexpected parameter list")
+		}
+		w, req := names[0], names[1]
+		s := &spec{name: r5.Name, vars: []tvar{{"#decision", "decision"}},
+			params: map[string]string{req + ".TLS": "is_tls", "s.shouldRedirectToHTTPS(" + req + ")": "should_redirect",
+				"s.handlePausedAndStoppedRequests(" + w + "," + req + ")": "gate_handled"},
+			ignoreLHS:  map[string]bool{"LoggingRequestContext(" + req + ").Service": true, "lb": true},
+			ignoreCall: map[string]bool{"verifEvent": true, "verifYield": true},
+			consts:     map[string]string{"nil": "None", "true": "true", "false": "false", "http.StatusServiceUnavailable": "503"},
+			callAssign: map[string][]callSet{
+				"s.redirectToHTTPS": {{"#decision", -1, "1"}},
+				"SetErrorResponse":  {{"#decision", 2, ""}},
+				"lb.ServeHTTP":      {{"#decision", -1, "4"}},
+			},
+			multiDefine: map[string][]string{"s.tlsSettings()": {"tls", "redir"}}}
+		return "Definition gen_service_ladder (should_redirect tls redir is_tls gate_handled : bool) : nat :=\n  let decision := 0 in\n  " +
+			s.block(fd.Body.List, s.tuple()) + "."
 	})
 
 	var b strings.Builder
